@@ -38,18 +38,19 @@ func init() {
 		[]string{"loaders are opaque user functions", "in-flight table atomicity (C15)"},
 		ruleC10TableC10, ruleC10Inv, ruleC10Distribute, ruleC10Finisher, ruleLoadLemma, ruleLoadOps, ruleBulkOps, ruleC08Finish)
 	register("C11",
-		"Decides the structural clauses of refresh on every enumerated path: a hit returns the value cached at that moment and never loads inline (C11.old); a reload is scheduled only on the not-fresh edge and only inside an executor closure (C11.trigger); Reload gets the old value, Load is used for absent keys (C11.reloadarg); without refresh configured nothing is returned or scheduled, a manual refresh returns a capacity-1 channel and sends exactly one result on every non-panicking path, automatic refreshes send nothing (C11.chan); a failed reload keeps the entry and its expiry, a not-found reload of its own record removes it, a successful own reload installs (C10.table, C12.hook failure rows). "+
+		"Decides the structural clauses of refresh on every enumerated path: a hit returns the value cached at that moment and never loads inline (C11.old); a reload is scheduled only on the not-fresh edge and only inside an executor closure (C11.trigger); Reload gets the old value, Load is used for absent keys (C11.reloadarg); without refresh configured nothing is returned or scheduled, a manual refresh returns a capacity-1 channel and sends exactly one result on every non-panicking path, automatic refreshes send nothing (C11.chan); a failed reload keeps the entry and its expiry, a not-found reload of its own record removes it, a successful own reload installs (C10.table, C12.hook failure rows); an operation that writes nothing (SetIfAbsent on a live key, a cancelled compute) leaves the reload in flight, so its result still replaces the value (C09.clear). "+
 			"NOT decided: timing around the deadline and behaviour of asynchronous executors; one genuine defect is a known finding (bulk refresh leaves records in flight when a loader panic is re-raised).",
 		[]string{"the executor runs submitted closures", "loaders are opaque user functions"},
-		ruleLoadLemma, ruleLoadOps, ruleBulkOps, ruleC11ReloadArg, ruleC10TableC10, ruleC10Inv, ruleC10Distribute, ruleC10Finisher, ruleC12Hooks)
+		ruleLoadLemma, ruleLoadOps, ruleBulkOps, ruleC11ReloadArg, ruleC10TableC10, ruleC10Inv, ruleC10Distribute, ruleC10Finisher, ruleC12Hooks, ruleC09Clear)
 }
 
 func init() {
 	register("C04",
 		"Decides the structural clauses the size bound rests on, on every enumerated path of the policy handlers: zero-weight entries are never handed to the eviction callback by the eviction loops and are skipped by the window transfer (C04.zero); every eviction happens in an iteration guarded by weightedSize > maximum, re-read after each callback (C04.loop); oversized entries are evicted by add/update (C04.over); the running totals are written only by their handlers, add/update count a weight exactly once on every path, makeDead releases it exactly once under the not-dead guard (C04.acct); SetMaximum stores the maximum and runs maintenance under one lock section, maintenance replays writes before evicting (C04.setmax); every table change produces its replay task and the update handler leaves the new node reachable by the policy (C05.task, C05.transplant). "+
+			"A node the climber moves between queues leaves exactly one queue and enters exactly one (C05.moves): an entry in no queue can never be chosen for eviction. "+
 			"NOT decided: the bound itself (sum of weights <= maximum) over histories and schedules; absence of uint64 underflow in the totals.",
 		[]string{"the eviction callback updates the policy's counters (modelled as havoc of the policy's fields)", "deque operations behave as C05.deque decides"},
-		rulePolicy, ruleDeque, ruleDequeShape, ruleC04SetMax, ruleC05Task, ruleC05RunTask, ruleC13Order)
+		rulePolicy, ruleDeque, ruleDequeShape, ruleC04SetMax, ruleC05Task, ruleC05RunTask, ruleC13Order, ruleC05Moves)
 	register("C05",
 		"Decides, per path, that policy bookkeeping follows the table: every table change yields exactly one matching replay task (C05.task); the replay handler applies each task kind completely (C05.runTask); add links only alive nodes (C05.alive); the update handler leaves the new node linked - transplant only from a contained predecessor, else window entry (C05.transplant); the eviction callback unlinks, unschedules and kills on all paths (C05.evict); the intrusive deque clears links of removed/replaced nodes and keeps len in step (C05.deque); totals are written only by their handlers (C04.acct); the functions that move entries between the three queues conserve membership, tag and per-queue counters on every path (C05.moves); policy, deque, wheel and node link state is written, and both buffers are consumed, only with the eviction lock held (C05.lockctx); no task is dropped on enqueue (C14.after). "+
 			"NOT decided: equality of the counters with the sum of weights and set(Coldest)=set(All) as run-time facts.",
